@@ -246,6 +246,64 @@ def gen_mixed_collection(rng):
     return A, C, 'mixed-' + kind
 
 
+def gen_exact(rng):
+    """integer-grid operands whose distance is exactly representable and attained (axis-parallel gap, 3-4-5 offset, touching or
+    crossing at 0), built from long lines (8-40 vertices), multi-component geometries and polygons with >= 12 vertices, so that the
+    facet trees have composite roots and `within(v)` at the bit-exact distance goes through the tree expansion.
+    A lives in x <= 0, y <= 0 with the corner (0,0) and the edge (0,0)-(0,-h) on its right side; B is a first-quadrant shape with its
+    only vertex of abscissa 0 at its origin, placed at an offset."""
+    h = rng.randint(2, 6) * 2
+
+    def shape_a():
+        k = rng.choice(['long', 'poly', 'multiline', 'multipoly'])
+        if k == 'long':
+            n = rng.randint(6, 38)
+            return ('LineString', [(0, -h), (0, 0)] + [(-i, -((i * 3) % 5) - (1 if i % 2 else 0)) for i in range(1, n + 1)])
+        if k == 'poly':
+            m = rng.randint(5, 14)
+            chain = []
+            for i in range(1, m + 1):
+                chain += [(-i, -h), (-i, -h - 1)] if i % 2 else [(-i, -h - 1), (-i, -h)]
+            return ('Polygon', [[(0, 0), (0, -h)] + chain + [(-m - 1, chain[-1][1]), (-m - 1, 0), (0, 0)]])
+        if k == 'multiline':
+            return ('MultiLineString', [('LineString', [(0, -h), (0, 0), (-1, 0)])] +
+                    [('LineString', [(-3 * j - 2, -rng.randint(0, 9)), (-3 * j - 3, -rng.randint(0, 9)), (-3 * j - 4, -rng.randint(0, 9))]) for j in range(rng.randint(1, 5))])
+        return ('MultiPolygon', [('Polygon', [G.rect_ring(-2, -h, 0, 0)])] + [('Polygon', [G.rect_ring(-5 * j - 6, -4, -5 * j - 4, -1)]) for j in range(rng.randint(1, 4))])
+
+    def shape_b():
+        k = rng.choice(['long', 'poly', 'multiline', 'multipoint', 'short'])
+        if k == 'long':
+            return ('LineString', [(0, 0)] + [(i, (i * 2) % 7 + (i % 2)) for i in range(1, rng.randint(8, 40))])
+        if k == 'poly':
+            m = rng.randint(5, 14)
+            chain = []
+            for i in range(1, m + 1):
+                chain += [(i, 6), (i, 7)] if i % 2 else [(i, 7), (i, 6)]
+            return ('Polygon', [[(0, 0), (m + 1, 1), (m + 1, chain[-1][1])] + list(reversed(chain)) + [(1, 5), (0, 0)]])
+        if k == 'multiline':
+            return ('MultiLineString', [('LineString', [(0, 0), (2, 1)])] + [('LineString', [(3 * j + 3, rng.randint(0, 9)), (3 * j + 4, rng.randint(0, 9))]) for j in range(rng.randint(1, 5))])
+        if k == 'multipoint':
+            return ('MultiPoint', [('Point', (0, 0))] + [('Point', (rng.randint(1, 30), rng.randint(0, 30))) for _ in range(rng.randint(2, 12))])
+        return ('LineString', [(0, 0), (3, 2)])
+    A = shape_a(); B = shape_b()
+    kind = rng.choice(['gap', 'gap', '345', '345', 'touch-vertex', 'touch-edge', 'cross'])
+    if kind == 'gap':
+        g = rng.randint(1, 12); off = (g, -rng.randint(1, h - 1))
+    elif kind == '345':
+        k = rng.randint(1, 4); t = rng.choice([(3, 4), (4, 3), (5, 12), (8, 15)]); off = (t[0] * k, t[1] * k)
+    elif kind == 'touch-vertex':
+        off = (0, 0)
+    elif kind == 'touch-edge':
+        off = (0, -rng.randint(1, h - 1))
+    else:
+        off = (-1, -rng.randint(1, h - 1))
+        B = ('LineString', [(0, 0), (3, 0)] + [(3 + i, (i * 2) % 7) for i in range(1, rng.randint(6, 30))])       # crosses the edge x = 0 of A
+    B = G.map_coords(B, lambda q: (q[0] + off[0], q[1] + off[1]))
+    if rng.random() < 0.5:
+        A, B = B, A
+    return A, B, 'exact-' + kind
+
+
 def gen_pair(rng, quick):
     """-> (tag, A, B) on the integer grid (before the coordinate transform)"""
     R = rng.choice([6, 20, 20, 60])
@@ -256,6 +314,9 @@ def gen_pair(rng, quick):
         k = 2.0
     elif pre < 0.15:
         A, B, tag = gen_mixed_collection(rng)
+        k = 2.0
+    elif pre < 0.24:
+        A, B, tag = gen_exact(rng)
         k = 2.0
     elif k < 0.22:
         A = G.gen_geom(rng, R); B = G.gen_geom(rng, R); tag = 'random'
@@ -348,8 +409,10 @@ def gen_pair(rng, quick):
     return tag, A, B
 
 
-def transform_pair(rng, A, B):
+def transform_pair(rng, A, B, tag=''):
     k = rng.random()
+    if tag.startswith('exact-'):
+        return 'grid', A, B          # the point of this family: every intermediate quantity of the implementation is exact
     if k < 0.3:
         return 'grid', A, B
     if k < 0.65 and all(halfint(p) for p in G.all_points(A) + G.all_points(B)):
@@ -457,6 +520,62 @@ def margin_of(c):
 
 def harness_line(c, skip=''):
     return ('c%d %s %s %r %r %s' % (c.idx, wkb(c.A).hex(), wkb(c.B).hex(), c.frac, margin_of(c), skip)).rstrip()
+
+
+# exact helpers used ONLY to decide whether a rounding excuse is admissible (never for a verdict on a value)
+def _pt_seg2(p, a, b):
+    dx, dy = b[0] - a[0], b[1] - a[1]
+    l2 = dx * dx + dy * dy
+    t = (p[0] - a[0]) * dx + (p[1] - a[1]) * dy
+    if t <= 0:
+        return (p[0] - a[0]) ** 2 + (p[1] - a[1]) ** 2
+    if t >= l2:
+        return (p[0] - b[0]) ** 2 + (p[1] - b[1]) ** 2
+    cr = dx * (p[1] - a[1]) - dy * (p[0] - a[0])
+    return cr * cr / l2
+
+
+def _seg_seg2(a, b, c, d):
+    o = lambda p, q, r: (q[0] - p[0]) * (r[1] - p[1]) - (q[1] - p[1]) * (r[0] - p[0])
+    o1, o2, o3, o4 = o(a, b, c), o(a, b, d), o(c, d, a), o(c, d, b)
+    if o1 * o2 < 0 and o3 * o4 < 0:
+        return Fraction(0)
+    return min(_pt_seg2(c, a, b), _pt_seg2(d, a, b), _pt_seg2(a, c, d), _pt_seg2(b, c, d))
+
+
+def _facets(g):
+    out = []
+    F = lambda p: (Fraction(float(p[0])), Fraction(float(p[1])))
+    for a in G.atoms(g):
+        if G.is_empty(a):
+            continue
+        if a[0] == 'Point':
+            out.append((F(a[1]), F(a[1])))
+        else:
+            for seq in ([a[1]] if a[0] == 'LineString' else a[1]):
+                q = [F(p) for p in seq]
+                out += list(zip(q, q[1:])) if len(q) > 1 else [(q[0], q[0])]
+    return out
+
+
+def connected_linework(g):
+    """IndexedFacetDistance.cpp hasConnectedLinework: point, line, polygon without holes, possibly in one-element collections"""
+    t, d = g
+    if t in ('Point', 'LineString'):
+        return True
+    if t == 'Polygon':
+        return len(d) <= 1
+    return len(d) == 1 and connected_linework(d[0])
+
+
+def envelope_heuristic_dist2(prep, other):
+    """exact squared distance from the linework of prep to the boundary of the envelope of other, when
+    IndexedFacetDistance::isWithinDistance uses it as an early rejection; None when it does not"""
+    if not connected_linework(prep) or env_contains(other, prep):
+        return None
+    x0, y0, x1, y1 = [Fraction(float(v)) for v in bbox(other)]
+    rect = [((x0, y0), (x1, y0)), ((x1, y0), (x1, y1)), ((x1, y1), (x0, y1)), ((x0, y1), (x0, y0))]
+    return min(_seg_seg2(f[0], f[1], e[0], e[1]) for f in _facets(prep) for e in rect)
 
 
 def single_but_disconnected(g):
@@ -629,6 +748,13 @@ def evaluate(c):
             mg = margin_of(c)
             ths = [vv, math.nextafter(vv, -math.inf), math.nextafter(vv, math.inf), 0.0, 2 * vv, math.inf, vv + mg, vv - mg]
             kinds = set()
+
+            def heuristic_may_flip(pg, og, t):
+                # an exact distance on exact (small integer) input: the only rounding left in the prepared within test is the
+                # early rejection against the other envelope's boundary (measured with the |s| sqrt(L2) formula); it can flip the
+                # answer only when that bound itself lies inside the rounding envelope of the threshold
+                hd = envelope_heuristic_dist2(pg, og)
+                return hd is not None and max(Fraction(t) - tau, 0) ** 2 <= hd <= (Fraction(t) + tau) ** 2
             for j in range(8):
                 if got is None or len(got) != 8 or got[j] == exp[j]:
                     if got is None or len(got) != 8: kinds.add('viol')
@@ -639,9 +765,9 @@ def evaluate(c):
                 elif pkind == 'basic' and plain not in ('EXC', None) and ((j == 1 and got[j] == '1' and unhex(plain) < vv) or (j == 0 and got[j] == '0' and unhex(plain) > vv)) \
                         and accept(plain, D, tau) != 'bad':
                     kinds.add('known:C08-K6')          # BasicPreparedGeometry: distance from the rounded nearest points, within from DistanceOp
-                elif math.isfinite(t) and D is not None and (Fraction(vv) ** 2 != D or pkind == 'indexed' or not small_grid) and \
+                elif math.isfinite(t) and D is not None and (Fraction(vv) ** 2 != D or not small_grid or (pkind == 'indexed' and heuristic_may_flip(a0, a1, t))) and \
                         max(Fraction(t) - tau, 0) ** 2 <= D <= (Fraction(t) + tau) ** 2:
-                    kinds.add('known:C08-K1')          # the returned distance is inexact (or the indexed heuristic measures to the envelope) and the threshold lies inside the rounding envelope
+                    kinds.add('known:C08-K1')          # the returned distance is inexact, or the input is off the small grid, or the envelope heuristic's own bound lies in the envelope; and the threshold lies inside the rounding envelope
                 elif pkind == 'indexed' and got[j] == '0' and single_but_disconnected(prep) and not env_contains(a1, a0) and D is not None \
                         and (math.isinf(t) or (Fraction(t) + tau) ** 2 >= D):
                     kinds.add('known:C08-K8')          # envelope heuristic of IndexedFacetDistance::isWithinDistance applied to disconnected linework
@@ -809,7 +935,7 @@ def sections_tie(ctx, drv):
 
 def run(ctx):
     ctx.cov['rule'] = ('pairs of non-empty geometries (points, lines, polygons with holes, multi-geometries, collections with EMPTY elements) in '
-                       'random / derived-touching / far / containment (interior, hole, annulus) / in-and-around-a-hole / polygon-vs-mixed-dimension-collection / collinear-parallel / T-junction / near-miss / '
+                       'random / derived-touching / far / containment (interior, hole, annulus) / in-and-around-a-hole / polygon-vs-mixed-dimension-collection / exactly-representable-distance on long and multi-component operands / collinear-parallel / T-junction / near-miss / '
                        'many-component and large (index pruning) configurations, on the integer grid, after an exact dyadic similarity (full mantissas, contacts stay exact) '
                        'or after an inexact affine map at several magnitudes; every entry point evaluated on each pair; non-trivial = at least one '
                        'segment on one side and the pair is not two single points; distinct by the WKB of the pair')
@@ -841,7 +967,7 @@ def run(ctx):
         tag, A, B = gen_pair(rng, ctx.quick)
         if G.is_empty(A) or G.is_empty(B):
             continue
-        tr, A, B = transform_pair(rng, A, B)
+        tr, A, B = transform_pair(rng, A, B, tag)
         cases.append(mk_case(len(cases), tag, tr, A, B, rng))
     ctx.log('%d cases generated' % len(cases))
     run_cases(ctx, hexe, drv, cases)
@@ -899,7 +1025,7 @@ def run(ctx):
     for c in cases[:4]:
         ctx.sample('%s/%s A=%s B=%s' % (c.tag, c.tr, G.to_wkt(c.A)[:150], G.to_wkt(c.B)[:150]))
     # generator self-check: every configuration class and both zero / positive distances must have been drawn
-    for need in ['random', 'derived', 'far', 'contain', 'collinear', 'parallel', 'tjunction', 'nearmiss', 'hole-around', 'mixed-', 'many', 'big', '+empty']:
+    for need in ['random', 'derived', 'far', 'contain', 'collinear', 'parallel', 'tjunction', 'nearmiss', 'hole-around', 'mixed-', 'exact-', 'many', 'big', '+empty']:
         if not any(need in t for t in dist['config']):
             ctx.broken.append(dict(kind='generator', name='distribution', detail='no %s configuration generated' % need))
     if dist['zero_distance'] == 0 or dist['positive_distance'] == 0:
